@@ -5,6 +5,7 @@ import GlmVerif.Spec.C08
 import GlmVerif.Spec.C09
 import GlmVerif.Spec.C10
 import GlmVerif.Spec.C12
+import GlmVerif.Spec.C13
 import GlmVerif.Spec.C19
 namespace Glm.Spec
 def familiesOf : String → List Family
@@ -15,6 +16,7 @@ def familiesOf : String → List Family
   | "C09" => C09.families
   | "C10" => C10.families
   | "C12" => C12.families
+  | "C13" => C13.families
   | "C19" => C19.families
   | _ => []
 /-- refuted clauses (known findings) per property -/
